@@ -306,6 +306,14 @@ pub fn child(req_json: &str) -> i32 {
             rs.push(("with_timezone".into(), g(&mut || { let d = Utc.from_utc_datetime(&n).with_timezone(&Local); if d.naive_utc() != n { return i32::MIN; } d.offset().fix().local_minus_utc() })));
             rs.push(("From<DateTime<Utc>>".into(), g(&mut || DateTime::<Local>::from(Utc.from_utc_datetime(&n)).offset().fix().local_minus_utc())));
             rs.push(("timestamp_opt".into(), g(&mut || match Local.timestamp_opt(u, 0) { MappedLocalTime::Single(d) => d.offset().fix().local_minus_utc(), _ => i32::MIN })));
+            // text and serde round trips of the Local value keep the instant and find the same offset
+            // (whole-minute offsets only: the text forms cannot carry offset seconds)
+            let here = Local.offset_from_utc_datetime(&n).fix().local_minus_utc();
+            if here % 60 == 0 {
+                rs.push(("Display -> FromStr".into(), g(&mut || match Local.from_utc_datetime(&n).to_string().parse::<DateTime<Local>>() { Ok(d) if d.naive_utc() == n => d.offset().fix().local_minus_utc(), _ => i32::MIN })));
+                rs.push(("serde_json round trip".into(), g(&mut || match serde_json::to_string(&Local.from_utc_datetime(&n)).ok().and_then(|t| serde_json::from_str::<DateTime<Local>>(&t).ok()) { Some(d) if d.naive_utc() == n => d.offset().fix().local_minus_utc(), _ => i32::MIN })));
+                rs.push(("bincode round trip".into(), g(&mut || match bincode::serialize(&Local.from_utc_datetime(&n)).ok().and_then(|t| bincode::deserialize::<DateTime<Local>>(&t).ok()) { Some(d) if d.naive_utc() == n => d.offset().fix().local_minus_utc(), _ => i32::MIN })));
+            }
             // deprecated date routes: the offset at 00:00:00 UTC of the instant's UTC date
             rs.push(("offset_from_utc_date".into(), g(&mut || Local.offset_from_utc_date(&n.date()).fix().local_minus_utc())));
             rs.push(("from_utc_date".into(), g(&mut || Local.from_utc_date(&n.date()).offset().fix().local_minus_utc())));
@@ -350,7 +358,7 @@ impl SubCheck for LocalRoutes {
         "local_routes"
     }
     fn rule(&self) -> &'static str {
-        "case = a zone named through TZ (generated POSIX rule, or a file of the system database by relative name) in a child process; every public route from Local to the two lookups (offset_from_utc_datetime, from_utc_datetime, with_timezone, From<DateTime<Utc>>, timestamp_opt, offset_from_local_datetime, from_local_datetime, and_local_timezone, with_ymd_and_hms, and the deprecated date routes at 00:00:00 of the date) answers what the zone data prescribe, probed around the transitions, inside gaps and folds and at the midnights next to them; non-trivial = a probe inside a gap or fold, or a midnight within a day of a transition"
+        "case = a zone named through TZ (generated POSIX rule, or a file of the system database by relative name) in a child process; every public route from Local to the two lookups (offset_from_utc_datetime, from_utc_datetime, with_timezone, From<DateTime<Utc>>, timestamp_opt, the Display/FromStr, serde_json and bincode round trips of the Local value, offset_from_local_datetime, from_local_datetime, and_local_timezone, with_ymd_and_hms, and the deprecated date routes at 00:00:00 of the date) answers what the zone data prescribe, probed around the transitions, inside gaps and folds and at the midnights next to them; non-trivial = a probe inside a gap or fold, or a midnight within a day of a transition"
     }
     fn strategy(&self) -> Option<BoxedStrategy<LCase>> {
         let files: Vec<String> = system_files().into_iter().filter_map(|p| p.strip_prefix("/usr/share/zoneinfo/").map(String::from)).filter(|n| !n.starts_with("right/") && !n.starts_with("posix/")).collect();
